@@ -573,6 +573,8 @@ def m_strip(I, recv, a, k, node, kind):
         return getattr(concrete(recv), node.func.attr)(*[concrete(x) for x in a])
     u = Unk('%s.%s' % (getattr(recv, 'name', 's'), node.func.attr), kinds=_k(recv), taint=tj(recv),
             src=('method', recv, node.func.attr, a))
+    if isinstance(recv, Unk) and 'strip-truthy' in recv.facts:
+        u.facts.add('truthy')
     return u
 
 
@@ -867,6 +869,11 @@ def m_rmatch(I, recv, a, k, node, kind):
             if kd is not None and want not in kd:
                 _raise(I, node, 'TypeError', 'pattern/data type mismatch')
             I.may_raise(node, ['TypeError'], 'regex applied to a value that may not be %s' % want, (data,))
+    oracle = getattr(I, 'regex_oracle', None)
+    if oracle is not None and is_concrete(recv) and isinstance(concrete(recv), Regex):
+        r = oracle(I, concrete(recv), mode, data, node)
+        if r != 'unknown':
+            return r
     u = Unk('m', kinds=['Match', 'NoneType'], taint=tj(data), src=('regex', recv, mode, data))
     return u
 
@@ -879,6 +886,10 @@ def m_rsub(I, recv, a, k, node, kind):
 
 def m_group(I, recv, a, k, node, kind):
     g = concrete(a[0]) if a else 0
+    if type(recv).__name__ == 'AMatch':
+        if g not in recv.groups:
+            _raise(I, node, 'IndexError', 'no such group %r' % (g,))
+        return recv.groups[g]
     rx = None
     if isinstance(recv, Unk) and recv.src and recv.src[0] == 'regex':
         rx = concrete(recv.src[1])
